@@ -367,4 +367,47 @@ def defaultH (h : AHeap) (f : HFld) (o : HOpts) : AHeap × M (List PlotCall) :=
                   f { o with mult := some m }).1, .ok (cs ++ cv ++ [lab]))
       else (h, .error .runtime)
 
+/-! ## sessions of direct method calls
+
+`field.mpl.scalar(...)`, `.contour(...)`, `.vector(...)`, `.lightness(...)` and `field.mpl(...)`
+take plain keyword arguments; what successive calls share is the HEAP: the arrays of the fields
+they are given (the same field, filter, colour or lightness field may be handed to many calls).
+A session serves its requests one after the other on one heap. -/
+
+inductive Kind where
+  | scalar | contour | vector | lightness | default
+  deriving DecidableEq, Repr, Inhabited
+
+/-- one direct call: which method, on which field, with which keyword arguments -/
+structure HReq where
+  kind : Kind
+  field : HFld
+  opts : HOpts := {}
+  clim : Option (Rat × Rat) := none
+
+/-- one call on the heap -/
+def callH (sqrtF : Rat → Rat) (h : AHeap) (r : HReq) : AHeap × M (List PlotCall) :=
+  match r.kind with
+  | .scalar => scalarH h r.field r.opts
+  | .contour => contourH h r.field r.opts
+  | .vector => vectorH h r.field r.opts
+  | .lightness => lightnessH sqrtF h r.field r.opts r.clim
+  | .default => defaultH h r.field r.opts
+
+/-- a session of direct calls: the requests are served one after the other on the same heap -/
+def runHeapSession (sqrtF : Rat → Rat) (h : AHeap) : List HReq → AHeap × List (M (List PlotCall))
+  | [] => (h, [])
+  | r :: rs =>
+    ((runHeapSession sqrtF (callH sqrtF h r).1 rs).1,
+     (callH sqrtF h r).2 :: (runHeapSession sqrtF (callH sqrtF h r).1 rs).2)
+
+/-- specification of one call: the value model on the fields as they read on the heap `h` -/
+def specH (sqrtF : Rat → Rat) (h : AHeap) (r : HReq) : M (List PlotCall) :=
+  match r.kind with
+  | .scalar => mplScalar (r.field.abs h) (r.opts.abs h)
+  | .contour => mplContour (r.field.abs h) (r.opts.abs h)
+  | .vector => mplVector (r.field.abs h) (r.opts.abs h)
+  | .lightness => mplLightness sqrtF (r.field.abs h) { r.opts.abs h with clim := r.clim }
+  | .default => mplDefault (r.field.abs h) (r.opts.abs h)
+
 end DFV.C20
